@@ -1,3 +1,4 @@
+import AquaVerif.Proofs.SeasonIndep
 import AquaVerif.Proofs.CropCalendar
 import AquaVerif.Generated.ResetFields
 import AquaVerif.Proofs.Seasons
@@ -213,5 +214,95 @@ theorem init_degree_days_are_the_daily_ones (m : GddMethod) {tbase tupp : α} (h
     growingDegreeDay m.toNat tupp tbase tmax tmin = some (gddDayInit m tbase tupp tmin tmax) :=
   gddDayInit_eq_daily m h tmin tmax
 end calendar
+
+/-! ## 4. Run level: season `k` of a multi-season run is a fresh single-season run -/
+
+section run
+variable {α : Type} [Field α] [LinearOrder α] [IsStrictOrderedRing α]
+  {F : Fn α} {T : TrigFn α} {cfg : RunCfg α} {k : Nat} {init' : DayState' α}
+
+/-- **On its first day of a season the day function does not read what an earlier season left in
+the fields the reset does not assign.**  From any two start states that agree on the live fields
+(`StEq`: everything except `FluxOut`, `th_fc_Adj` under a water table, `w_surf`, `evap_z`,
+`stage2`, `w_stage_2`, `z_root`, `hi_ref`, `yield_form`, `depletion`, `taw`, `z_gw`, `wt_in_soil`,
+`YieldPot`) a successful first day after planting (growing season, `dap` becomes 1, off-season not
+simulated, known crop type) gives the same state, rows, summary row and ghost outputs. -/
+theorem first_day_ignores_unreset_fields {P : DayParams α} {st st' : DayState' α} {D : DayIn' α}
+    {r : DayResult α} (h : fullDay F T P st D = .ok r) (he : StEq P.W.waterTable st st')
+    (hfd : FirstDay P st D) :
+    ∃ r', fullDay F T P st' D = .ok r' ∧ r'.noFlux = r.noFlux ∧ r'.state = r.state :=
+  fullDay_congr_dead h he hfd
+
+/-- **The reset erases the history**: with the off-season skipped, the states
+`reset_initial_conditions` makes of two run states (same compartments; without a water table the
+same adjusted field capacity) agree on every live field.  Together with the previous theorem:
+every attribute of the state object is reset, constant along the run, or not read. -/
+theorem reset_erases_history (crop : CropParams α) {X Y : DayState' α}
+    (hoff : cfg.clock.offSeason = false) (hX : CellsInv cfg X) (hY : CellsInv cfg Y)
+    (hlen : cfg.init.cells.length ≤ cfg.thini.length) :
+    StEq cfg.W0.waterTable (resetState cfg crop X) (resetState cfg crop Y) :=
+  resetState_stEq crop hoff hX hY hlen
+
+/-- **Season `k` of a multi-season run equals the single-season run started on its planting date**
+(run model, every `F`, `T`).  For every reachable state `s` of the multi-season run there is a
+reachable state `s1` of the run of the fresh configuration for season `k` whose day records are,
+index for index, those of season `k` in `s` — same parameters and inputs, same state after each day,
+same `water_storage` / `water_flux` / `crop_growth` rows and summary row up to the
+`time_step_counter` and `season_counter` labels; once the multi-season run has left season `k` the
+fresh run is finished. -/
+theorem season_k_equals_fresh_run {s : RunState α} (hP : SeasonPre cfg k init')
+    (hr : RunReach F T cfg s) :
+    ∃ s1, RunReach F T (freshCfgI cfg k init') s1 ∧
+      List.Forall₂ (RecSh cfg.W0.waterTable (cfg.clock.pl k) k)
+        (seasonRecs (k : Int) s.daysRev) s1.daysRev ∧
+      (((k : Int) < s.season ∨ (s.season = (k : Int) ∧ s.finished = true)) →
+        s1.finished = true) :=
+  season_independent hP hr
+
+/-- … in terms of the output tables: the rows of season `k` of the `water_flux` and `crop_growth`
+tables and the summary row of season `k` are the rows of the fresh run with the day counter
+shifted by the planting index and the season label replaced. -/
+theorem season_k_tables_equal_fresh_run {s : RunState α} (hP : SeasonPre cfg k init')
+    (hr : RunReach F T cfg s) :
+    ∃ s1, RunReach F T (freshCfgI cfg k init') s1 ∧
+      s.fluxTable.filter (fun x => decide (x.season = (k : Int))) =
+        s1.fluxTable.map (fun x => { x with tsc := x.tsc + cfg.clock.pl k, season := (k : Int) }) ∧
+      s.growthTable.filter (fun x => decide (x.season = (k : Int))) =
+        s1.growthTable.map (fun x => { x with tsc := x.tsc + cfg.clock.pl k, season := (k : Int) }) ∧
+      s.summaryTable.filter (fun x => decide (x.season = (k : Int))) =
+        s1.summaryTable.map (fun x => { x with tsc := x.tsc + cfg.clock.pl k, season := (k : Int) }) ∧
+      (((k : Int) < s.season ∨ (s.season = (k : Int) ∧ s.finished = true)) →
+        s1.finished = true) :=
+  season_tables hP hr
+
+/-- **No state of an earlier season leaks into a later one**: two runs whose weather and
+water-table records differ only before the planting date of season `k` produce the same day
+records in season `k`. -/
+theorem no_state_leaks_into_later_season {s s2 : RunState α} {w2 : Nat → Weather α} {z2 : Nat → α}
+    (hP : SeasonPre cfg k init')
+    (hw2 : ∀ t, cfg.clock.pl k ≤ t → w2 t = cfg.weather t)
+    (hz2 : ∀ t, cfg.clock.pl k ≤ t → z2 t = cfg.zgw t)
+    (hr : RunReach F T cfg s) (hr2 : RunReach F T (withForcing cfg w2 z2) s2)
+    (hlen : (seasonRecs (k : Int) s.daysRev).length = (seasonRecs (k : Int) s2.daysRev).length) :
+    List.Forall₂ (RecSame cfg.W0.waterTable) (seasonRecs (k : Int) s.daysRev)
+      (seasonRecs (k : Int) s2.daysRev) :=
+  no_leak hP hw2 hz2 hr hr2 hlen
+
+/-- the state the first day of season `k` starts from is the configured initial state on every
+live field -/
+theorem season_starts_from_initial_conditions {s : RunState α} (hP : SeasonPre cfg k init')
+    (hr : RunReach F T cfg s) (d : DayRec α)
+    (hd : (seasonRecs (k : Int) s.daysRev).getLast? = some d) :
+    StEq cfg.W0.waterTable d.st init' :=
+  season_start_state hP hr d hd
+
+end run
+
+/-- `hi_ref` is the one attribute that would leak — for a crop type the package never builds -/
+theorem hi_ref_leaks_only_for_unknown_crop_type :
+    (hiRefCurrentDay DayExample.Fq hiLeakCrop (hiLeakIn 0.2) true).hiRef = 0.2 ∧
+      (hiRefCurrentDay DayExample.Fq hiLeakCrop (hiLeakIn 0.3) true).hiRef = 0.3 :=
+  hiRef_live_for_unknown_cropType
+
 
 end Aqua.C08
